@@ -24,8 +24,8 @@ ASSUMPTIONS = [
     'the value decoders of PMSI, TUNNEL_ENCAP, AIGP, BGP-LS, PREFIX_SID are outside the Lean model (oracle and generic corruptions only)',
     'the content of the AS_PATH rebuilt by merge_attributes is not compared here (C02)',
     'Python recursion depth is not modelled: bodies with more than 900 attributes are judged by the oracle only',
-    'an attribute whose flags octet has the Partial bit or one of the four unused bits set where ExaBGP does not expect it is handled by ExaBGP as a flag conflict (stricter than RFC 4271 4.3 / RFC 7606 3.c, which only name the Optional and Transitive bits); the oracle neither calls it malformed nor counts its loss',
-    'which of the five repairs (assemble, overrun, nh4, seg0, flagCls) are present in /repo is probed on five fixed inputs; the model variant with those switches is the one compared',
+    'a well-known attribute with the Partial bit set is handled by ExaBGP as a flag conflict (treat-as-withdraw or discard by class; stricter than RFC 7606 3.c, which only names the Optional and Transitive bits); the oracle neither calls it malformed nor counts its loss',
+    'whether the one open repair (C08b: empty AS_PATH segment refused) is present in /repo is probed on one fixed input; the model variant with that switch is the one compared',
 ]
 TRUSTED_EXTRA = ['RFC reading in harness/rfc7606rig.py (rfc_walk, wf_value, wf_flags, RFC_CLASS) used by the oracle']
 
@@ -43,26 +43,12 @@ for _k, _g in rig.GROUPS.items():
 
 
 def probe_fix(S: dict[bool, rig.Session]) -> str:
+    """Is the one repair that is still open (C08b, empty AS_PATH segment refused) present in the tree?"""
     s = S[True]
-    o, a, n = rig.tlv(0x40, 1, b'\0'), rig.tlv(0x40, 2, b'\x02\x01\x00\x00\xfd\xe9'), rig.tlv(0x40, 3, bytes([10, 0, 0, 1]))
-    nl = b'\x18\x0a\x00\x00'
-
-    def ann(block: bytes) -> bool:
-        u = s.unpack(rig.join_body(b'', block, nl))
-        return u['out'] == 'ok' and bool(u['announce'])
-
-    def kept(block: bytes, code: int) -> bool:
-        u = s.unpack(rig.join_body(b'', block, nl))
-        return u['out'] == 'ok' and any(c == code for c, _, _ in u['kept'])
-
-    assemble = not ann(rig.tlv(0x40, 1, b'\x09') + a + n)
-    overrun = not kept(o + a + n + rig.tlv(0xC0, 8, b'\xfd\xe8\x00\x01', dlen=8), 8)
-    nh4 = not kept(o + a + rig.tlv(0x40, 3, bytes(16)), 3)
-    seg0 = not kept(o + rig.tlv(0x40, 2, b'\x02\x00') + n, 2)
-    u = s.unpack(rig.join_body(b'', o + a + n + rig.tlv(0x90, 14, bytes.fromhex('00020110' + '20010db8' + '00' * 12 + '00' + '4020010db800010002')), b''))
-    u2 = s.unpack(rig.join_body(b'', o + a + n + rig.tlv(0xC0, 14, bytes.fromhex('00020110' + '20010db8' + '00' * 12 + '00' + '4020010db800010002')), b''))
-    flagcls = u['out'] == 'ok' and u2['out'] == 'notify 3 4'
-    return ''.join(str(int(b)) for b in (assemble, overrun, nh4, seg0, flagcls))
+    o, n = rig.tlv(0x40, 1, b'\0'), rig.tlv(0x40, 3, bytes([10, 0, 0, 1]))
+    u = s.unpack(rig.join_body(b'', o + rig.tlv(0x40, 2, b'\x02\x00') + n, b'\x18\x0a\x00\x00'))
+    seg0 = not (u['out'] == 'ok' and any(c == 2 for c, _, _ in u['kept']))
+    return str(int(seg0))
 
 
 # ---------------------------------------------------------------------------------------------
@@ -76,8 +62,8 @@ def occ_malformed(o: dict, asn4: bool) -> str | None:
     if not rig.wf_flags(o['code'], o['flag']):
         return 'flags'
     if not rig.wf_value(o['code'], o['val'], asn4):
-        # with Partial / unused bits set where ExaBGP does not expect them its decision is the one of a flag conflict
-        noise = o['flag'] & (0x0F if o['flag'] & 0x80 else 0x2F)
+        # with Partial set on a well-known attribute ExaBGP's decision is the one of a flag conflict
+        noise = 0 if o['flag'] & 0x80 else o['flag'] & 0x20
         return 'flags' if noise else 'value'
     return None
 
@@ -128,8 +114,10 @@ def judge_view(view_kept: dict[int, str] | None, view_keys: set[str] | None, occ
             code = o['code']
             if code not in rig.FLAG_SPEC or code in (14, 15):
                 continue
-            if o['flag'] & 0x2F:
-                continue  # Partial or unused flag bits: ExaBGP treats them as a flag conflict (see ASSUMPTIONS)
+            if (o['flag'] & 0x20) and not (o['flag'] & 0x80):
+                continue  # Partial on a well-known attribute: ExaBGP treats it as a flag conflict (see ASSUMPTIONS)
+            if code == 17 and asn4:
+                continue  # RFC 6793 4.1: a 4-octet session ignores AS4_PATH
             if view_kept is not None:
                 if code == 17 and 2 in view_kept:
                     continue  # merged into AS_PATH
@@ -352,8 +340,8 @@ def run(ctx: Ctx) -> None:
     S = {True: rig.Session(True), False: rig.Session(False)}
     try:
         fix = probe_fix(S)
-        ctx.extra['fix_bits'] = {'order': 'assemble overrun nh4 seg0 flagCls', 'present_in_repo': fix}
-        ctx.notes.append(f'repairs present in /repo (assemble overrun nh4 seg0 flagCls) = {fix}')
+        ctx.extra['fix_bits'] = {'order': 'seg0', 'present_in_repo': fix}
+        ctx.notes.append(f'open repair C08b (empty AS_PATH segment refused) present in /repo = {fix}')
         if ctx.driver_ok:
             # the class table: generated row (classOf) against the hand-written RFC class, through the compiled model
             spec = [1, 2, 3, 4, 5, 6, 7, 8, 9, 10, 14, 15, 16, 17, 18, 25, 32]
